@@ -451,6 +451,7 @@ func (s *Supervisor) ProcessRun() (rr error) {
 		case gen.MailboxMessageTypeExit:
 			switch exit := message.Message.(type) {
 			case gen.MessageExitPID:
+				lib.VerifPoint("sup.exit", exit)
 				name, found := s.children[exit.PID]
 				if found {
 					delete(s.children, exit.PID)
